@@ -418,6 +418,22 @@ type sha256Field struct {
 	Sums []control.SHA256FileHash `control:"Checksums-Sha256" delim:"\n" strip:"\n\r\t "`
 }
 
+// the same list declared with pointer elements (whether the decoder fills such a member is its
+// business; if it does, every entry is the entry of its own line)
+type sha256PtrField struct {
+	Sums []*control.SHA256FileHash `control:"Checksums-Sha256" delim:"\n" strip:"\n\r\t "`
+}
+
+// BestChecksums reached through an embedded struct whose type name is not exported (a package's
+// own "common members" struct)
+type bestInner struct {
+	control.BestChecksums
+}
+
+type bestDeep struct {
+	bestInner
+}
+
 type sha512Field struct {
 	Sums []control.SHA512FileHash `control:"Checksums-Sha512" delim:"\n" strip:"\n\r\t "`
 }
@@ -448,7 +464,7 @@ func genVerifyCase(t *rapid.T) VerifyCase {
 
 var specC12Verify = Register(&Spec[VerifyCase]{
 	Prop: "C12", Name: "verify",
-	Rule: "(content, recorded hash) pairs; the entry comes from a Checksums-Sha256 / Checksums-Sha512 field (a third of the documents end without a line end) parsed into []SHA256FileHash / []SHA512FileHash, from control.BestChecksums with only the 256 field, only the 512 field or both present (via Checksums()), or from FileHashFromHasher over any of the four hashers (md5, sha1, sha256, sha512); the recorded hash is the true digest, the digest of other content, one flipped nibble, truncated (even / odd length; also cut by the zero byte a digest happens to end in), extended by zero or other bytes, the other algorithm's digest of the same content, or upper-case hex; the entry's Size column equals the stream length or is off by -1, +1, -5, +100 or far less, and in some cases the stream is the recorded content followed by 1..4096 further bytes. Oracle (the digest decides, not the size column; parsing the line into a variable that held other entries gives the same entry, a copy of the decoded struct kept by the caller still shows its own paragraph's entry after the next paragraph has been decoded into the same variable, a rejected line leaves the variable empty; once Verifier() has returned, the entry variable is overwritten with another entry - the verdict is about the entry the verifier was made from): the entry's Algorithm is that of the field it came from; writing the content in chunks and Close() returns nil iff digest_{entry algorithm}(content) == recorded hash (a malformed hex string may already be rejected by Verifier()). An entry that names an algorithm the library does not implement (sha384, sha224, sha512-256, sha3-*, blake2b, md4, ripemd160, crc32) and records the content's sha256 / sha512 / md5 / sha1 digest never gets a verifier that accepts the content. An entry built from an md5 or sha1 hasher is an entry built from a hasher like any other (Verifier() used to end the process with log.Fatalf for it - F52); md5/sha1 entries parsed from Files / Checksums-Sha1 fields are not named by the statement and not generated. Non-trivial: hash wrong in exactly one nibble, right under the wrong algorithm, or true with content in >= 2 chunks; distinct by case.",
+	Rule: "(content, recorded hash) pairs; the entry comes from a Checksums-Sha256 / Checksums-Sha512 field (a third of the documents end without a line end) parsed into []SHA256FileHash / []SHA512FileHash, from control.BestChecksums (embedded directly, or one level down inside a struct of unexported type name) with only the 256 field, only the 512 field or both present (via Checksums()), or from FileHashFromHasher over any of the four hashers (md5, sha1, sha256, sha512); the recorded hash is the true digest, the digest of other content, one flipped nibble, truncated (even / odd length; also cut by the zero byte a digest happens to end in), extended by zero or other bytes, the other algorithm's digest of the same content, or upper-case hex; the entry's Size column equals the stream length or is off by -1, +1, -5, +100 or far less, and in some cases the stream is the recorded content followed by 1..4096 further bytes. Oracle (the digest decides, not the size column; parsing the line into a variable that held other entries gives the same entry, a copy of the decoded struct kept by the caller still shows its own paragraph's entry after the next paragraph has been decoded into the same variable, a rejected line leaves the variable empty; once Verifier() has returned, the entry variable is overwritten with another entry - the verdict is about the entry the verifier was made from): the entry's Algorithm is that of the field it came from; writing the content in chunks and Close() returns nil iff digest_{entry algorithm}(content) == recorded hash (a malformed hex string may already be rejected by Verifier()). An entry that names an algorithm the library does not implement (sha384, sha224, sha512-256, sha3-*, blake2b, md4, ripemd160, crc32) and records the content's sha256 / sha512 / md5 / sha1 digest never gets a verifier that accepts the content. An entry built from an md5 or sha1 hasher is an entry built from a hasher like any other (Verifier() used to end the process with log.Fatalf for it - F52); md5/sha1 entries parsed from Files / Checksums-Sha1 fields are not named by the statement and not generated. Non-trivial: hash wrong in exactly one nibble, right under the wrong algorithm, or true with content in >= 2 chunks; distinct by case.",
 	Check: func(c VerifyCase, r *Recorder) error {
 		algo := "sha256"
 		switch c.Source {
@@ -694,6 +710,30 @@ var specC12Verify = Register(&Spec[VerifyCase]{
 		}
 		if !wantOK && cerr == nil {
 			return errf("verifier (%s entry from %s) accepted content although recorded hash %q != true %s digest %q (%s)", fh.Algorithm, c.Source, rec, algo, trueHex, c.Recorded)
+		}
+		// two lines through a list of POINTERS, and the selector one embedding level down
+		{
+			otherLine := fmt.Sprintf(" %s 11 second.tar.gz\n", trueDigest("sha256", []byte("second file")))
+			if algo == "sha256" && strings.HasPrefix(c.Source, "field") {
+				var ps sha256PtrField
+				if err := control.Unmarshal(&ps, strings.NewReader("Checksums-Sha256:\n"+line+otherLine)); err == nil {
+					if len(ps.Sums) != 2 || ps.Sums[0] == nil || ps.Sums[1] == nil || ps.Sums[0].Hash != rec || ps.Sums[0].Filename != "file.tar.gz" || ps.Sums[1].Filename != "second.tar.gz" {
+						return errf("a two-line Checksums-Sha256 field decoded into a []*SHA256FileHash member gives %d entries, the first %+v (its line says %s file.tar.gz)", len(ps.Sums), ps.Sums[0], rec)
+					}
+				} else {
+					r.Count("pointer-list-member-refused", 1)
+				}
+			}
+			if c.Source == "best256" || c.Source == "best512" {
+				field := map[bool]string{true: "Checksums-Sha512:\n", false: "Checksums-Sha256:\n"}[c.Source == "best512"]
+				var bd bestDeep
+				if err := control.Unmarshal(&bd, strings.NewReader(field+line)); err != nil {
+					return errf("cannot parse %q into a struct that embeds BestChecksums one level down: %v", field+line, err)
+				}
+				if cs := bd.Checksums(); len(cs) != 1 || cs[0].Hash != rec || cs[0].Algorithm != algo {
+					return errf("BestChecksums embedded one level down (in a struct of unexported type name): Checksums() = %+v for %q", cs, field+line)
+				}
+			}
 		}
 		// an entry that names an algorithm the library has no implementation of (a Checksums-Sha384
 		// field of tomorrow, read by the caller's own code): whatever is recorded - the SHA-256 or
